@@ -79,7 +79,7 @@ CLAIMED = {
     },
     "C20": {
         "category": "exploration",
-        "text": "The simulated heap keeps independent books (size, alignment, liveness of every managed block). At the first quiescent point after every collection and at end of run the worker checks conservation: reported bytes == sum of owned sizes == live arena bytes, owned blocks == live arena blocks, intern table == live strings after a full collection, a back-to-back second full collection frees nothing, next_gc == 2 x live under the shipped threshold policy, every release carries its allocation layout, the arena is empty after the VM is dropped, a program that ends normally leaves exactly the start-up number of temporary roots, and between full collections the heap does not drift away from the live size (after any nursery collection under the shipped threshold policy at most 16 x the bytes alive at the latest full collection + 1 MiB are in use, in loops producing short-lived objects of several kilobytes); churn loops with phase markers (90-140 phases, garbage of every object kind incl. errors raised inside natives, twelve mailboxes served round robin by the long-lived main fiber) check bounded memory (no sustained rise of the live size). Seeded nursery/full interleavings over corpus + generated programs.",
+        "text": "The simulated heap keeps independent books (size, alignment, liveness of every managed block). At the first quiescent point after every collection and at end of run the worker checks conservation: reported bytes == sum of owned sizes == live arena bytes, owned blocks == live arena blocks, intern table == live strings after a full collection, a back-to-back second full collection frees nothing, next_gc == 2 x live under the shipped threshold policy, every release carries its allocation layout, the arena is empty after the VM is dropped, a program that ends normally leaves exactly the start-up number of temporary roots, and between full collections the heap does not drift away from the live size (after any nursery collection under the shipped threshold policy at most 16 x the bytes alive at the latest full collection + 1 MiB are in use, and the smallest size over five collections does not exceed the largest of five collections twenty earlier by more than half of it + 1 MiB, in loops producing short-lived objects of several kilobytes and a rolling window of promoted objects), and what managed objects and the VM obtain outside the managed heap is given back (bytes still held from the system allocator after the VM was dropped are the same for n and 4 n iterations of a churn loop, measured in quiet jobs); churn loops with phase markers (90-140 phases, garbage of every object kind incl. errors raised inside natives, twelve mailboxes served round robin by the long-lived main fiber) check bounded memory (no sustained rise of the live size). Seeded nursery/full interleavings over corpus + generated programs.",
         "design_ref": "DESIGN.md section 3 C20",
         "note": "Trusts the arena side table as truth; invariants evaluated at quiescent points only; bounded-memory clause detects leaks of >= 1 block (or 16 bytes) per two loop iterations sustained over both halves of >= 60 phases and above a noise floor of 8 blocks / 640 bytes; channel creation inside the steady loop excluded (known finding C20-channel-retention).",
         "technique": "deterministic simulation: conservation invariants against the simulated heap's books under seeded collection interleavings",
